@@ -164,6 +164,10 @@ type RoamCase struct {
 	NoDwell bool    `json:"nodwell"`
 	Match   string  `json:"match,omitempty"`
 	Live    bool    `json:"live"`
+	// ExtraLive: further live ROAM fences on the same key (other pattern /
+	// radius / NODWELL), each on its own connection and judged against its own
+	// reference, independent of the others
+	ExtraLive []LiveSpec `json:"extra_live,omitempty"`
 	// Pre: the first Pre steps run BEFORE the fence and its observers are
 	// created, so the fenced / roam collections already exist at creation time
 	Pre   int            `json:"pre,omitempty"`
@@ -185,6 +189,13 @@ func (cs RoamCase) fenceTokens(fleet, other string) []string {
 		rk = fleet
 	}
 	return append(t, "ROAM", rk, cs.Pattern, ff(cs.Radius))
+}
+
+// LiveSpec is the definition of an additional live fence of a case.
+type LiveSpec struct {
+	Pattern string  `json:"pattern"`
+	Radius  float64 `json:"radius"`
+	NoDwell bool    `json:"nodwell"`
 }
 
 type pos struct{ lat, lon float64 }
@@ -435,6 +446,7 @@ type rgen struct {
 	cs      *RoamCase
 	cols    [2]map[string]pos
 	radius  float64 // radius in force (re-definitions change it)
+	xradii  []float64 // radii of the additional live fences
 	lastOld *pos    // previous position of the object moved last (still relevant to a late live evaluation)
 }
 
@@ -452,6 +464,11 @@ func (g *rgen) clear(col int, id string, p pos) bool {
 			d := haversine(p.lat, p.lon, op.lat, op.lon)
 			if math.Abs(d/g.radius-1) < 1e-4 {
 				return false
+			}
+			for _, xr := range g.xradii {
+				if math.Abs(d/xr-1) < 1e-4 {
+					return false
+				}
 			}
 		}
 	}
@@ -496,6 +513,17 @@ func genRoam(rt *rapid.T, maxSteps int) RoamCase {
 		cs.Match = pick(rt, "glob", []string{"t*", "*1", "*"})
 	}
 	cs.Live = pct(rt, "live") < 40
+	// several live fences on one key: every SET is matched by all their
+	// connection goroutines at the same time, each must report its own pairs
+	multiLive := cs.Live && (cs.Pattern == "*" || cs.Pattern == "t*") && pct(rt, "multi-live") < 45
+	if multiLive {
+		for i, n := 0, intn(rt, "extra-lives", 1, 3); i < n; i++ {
+			x := LiveSpec{Pattern: pick(rt, "x-pattern", []string{"*", "t*", "t1??", "*"}), NoDwell: rapid.Bool().Draw(rt, "x-nodwell"),
+				Radius: math.Round(cs.Radius*pick(rt, "x-radius", []float64{0.6, 0.8, 1, 1.25, 1.6})*1000) / 1000}
+			cs.ExtraLive = append(cs.ExtraLive, x)
+			g.xradii = append(g.xradii, x.Radius)
+		}
+	}
 	// the other collection deliberately shares ids with the fleet: key2/id is a
 	// different object than fleet/id (regression: roam-skips-same-id-in-other-collection)
 	otherIDs := []string{"t1", "t2", "u1", "n1", "t7"}
@@ -674,11 +702,18 @@ func genRoam(rt *rapid.T, maxSteps int) RoamCase {
 	crowd := 0
 	var crowdIDs []string
 	crowdR := 1.0
-	if (cs.Pattern == "*" || cs.Pattern == "t*") && pct(rt, "crowd") < 9 {
-		crowd = pick(rt, "crowd-n", []int{1, 2, 3, 7, 8, 9, 10, 12, 16, 17, 20, 24, 32, 33, 48, 64, 70})
+	crowdPct := 9
+	if multiLive {
+		crowdPct = 60 // the live goroutines need a few dozen neighbours each to work on
+	}
+	if (cs.Pattern == "*" || cs.Pattern == "t*") && pct(rt, "crowd") < crowdPct {
+		crowd = pick(rt, "crowd-n", []int{1, 2, 3, 7, 8, 9, 10, 12, 16, 17, 20, 24, 32, 33, 48, 64, 70, 101, 130})
+		if multiLive {
+			crowd = pick(rt, "crowd-n-live", []int{30, 33, 40, 48, 64, 70})
+		}
 		crowdR = pick(rt, "crowd-r", []float64{0.7, 1.0, 1.3, 1.7})
 		for i := 0; i < crowd; i++ {
-			id := fmt.Sprintf("t%02d", 10+i)
+			id := fmt.Sprintf("t%d", 100+i) // never the barrier probe's id t91
 			for try := 0; try < 5; try++ {
 				la, lo := destination(base.lat, base.lon, crowdR*g.radius*math.Sqrt(unif(rt, "crowd-d", 0, 1)), unif(rt, "crowd-b", 0, 360))
 				p := pos{round8(la), round8(lo)}
@@ -1179,6 +1214,38 @@ func runRoam(t failer, c *ev.Collector, cs RoamCase) (info roamInfo) {
 			}
 		}()
 	}
+	// additional live fences on the same key, each with its own reference model
+	type liveRun struct {
+		obs     *liveObs
+		m       *rmodel
+		seen    int
+		pending [][]entry
+		tok     []string
+		exp     []entry
+	}
+	var extras []*liveRun
+	for _, x := range cs.ExtraLive {
+		xcs := cs
+		xcs.Pattern, xcs.Radius, xcs.NoDwell, xcs.Match = x.Pattern, x.Radius, x.NoDwell, ""
+		xm := &rmodel{cs: xcs, cols: [2]map[string]pos{{}, {}}}
+		for n := 0; n < cs.Pre && n < len(cs.Steps); n++ {
+			xm.apply(cs.Steps[n])
+		}
+		xtok := xcs.fenceTokens(keys[0], keys[1])
+		obs, err := openLive(srv.Addr, xtok)
+		if err != nil {
+			panic("harness: extra live fence: " + err.Error())
+		}
+		defer func() {
+			if !obs.close(ctl, keys[0]) {
+				c.Inconclusive("live connection of %s still listed after 20s", prefix)
+			}
+		}()
+		extras = append(extras, &liveRun{obs: obs, m: xm, tok: xtok})
+	}
+	if len(extras) > 0 {
+		info.labels[fmt.Sprintf("live-fences-on-one-key:%d", len(extras)+1)]++
+	}
 	syncCh := prefix + ":sync"
 	sub := srv.MustDial()
 	defer sub.Close()
@@ -1193,8 +1260,7 @@ func runRoam(t failer, c *ev.Collector, cs RoamCase) (info roamInfo) {
 
 	var expAll [][]entry // per step
 	var chanAll [][]rgot
-	liveSeen := 0
-	var livePending [][]entry // steps since the last barrier
+	var primary *liveRun // the case's own live fence
 	shapes := 0               // extended objects stored so far
 	redefined := false        // the fence was re-defined under its name at least once
 	removedRoam := false      // the roam collection was removed (and possibly re-created) after the fence was made
@@ -1284,6 +1350,9 @@ func runRoam(t failer, c *ev.Collector, cs RoamCase) (info roamInfo) {
 		}
 		if v.IsErr() {
 			fail("unexpected-error", fmt.Sprintf("step %d %s: %s", n, t38.CmdString(args), v))
+		}
+		for _, x := range extras {
+			x.exp = x.m.apply(s)
 		}
 		before := len(m.cols[s.Col])
 		overString := (s.Op == "set" || s.Op == "setex") && m.strs[s.Col] != nil && m.strs[s.Col][s.ID]
@@ -1450,17 +1519,24 @@ func runRoam(t failer, c *ev.Collector, cs RoamCase) (info roamInfo) {
 		// live: evaluated asynchronously against the collection as it is THEN;
 		// the barrier probe (exactly one message) tells when the step was evaluated
 		if live != nil {
-			livePending = append(livePending, exp)
-			if s.Sync {
+			if primary == nil {
+				primary = &liveRun{obs: live, tok: tok}
+			}
+			primary.m, primary.exp = m, exp
+			for li, lv := range append([]*liveRun{primary}, extras...) {
+				lv.pending = append(lv.pending, lv.exp)
+				if !s.Sync {
+					continue
+				}
 				need := 0
-				for _, e := range livePending {
+				for _, e := range lv.pending {
 					need += len(e)
 				}
 				deadline := time.Now().Add(waitBudget())
 				extended := false
 				for {
-					raw := live.st.snapshot()
-					if len(raw)-liveSeen >= need {
+					raw := lv.obs.st.snapshot()
+					if len(raw)-lv.seen >= need {
 						break
 					}
 					if time.Now().After(deadline) {
@@ -1473,9 +1549,9 @@ func runRoam(t failer, c *ev.Collector, cs RoamCase) (info roamInfo) {
 						}
 						break
 					}
-					live.st.wait(time.Until(deadline))
+					lv.obs.st.wait(time.Until(deadline))
 				}
-				raw := live.st.snapshot()[liveSeen:]
+				raw := lv.obs.st.snapshot()[lv.seen:]
 				take := func(k int) []rgot {
 					if k > len(raw) {
 						k = len(raw)
@@ -1485,25 +1561,25 @@ func runRoam(t failer, c *ev.Collector, cs RoamCase) (info roamInfo) {
 						out[i] = parseRoam(raw[i])
 					}
 					raw = raw[k:]
-					liveSeen += k
+					lv.seen += k
 					return out
 				}
-				for pi, e := range livePending {
+				for pi, e := range lv.pending {
 					got := take(len(e))
-					if pi == len(livePending)-1 && len(raw) > 0 {
+					if pi == len(lv.pending)-1 && len(raw) > 0 {
 						got = append(got, take(len(raw))...) // extras
 					}
-					if k, what := compareStep(m.cs, e, got, "", keys[0], roamKey, &info); k != "" {
+					if k, what := compareStep(lv.m.cs, e, got, "", keys[0], roamKey, &info); k != "" {
 						key := k + ":live"
-						if len(livePending) > 3 {
+						if len(lv.pending) > 3 {
 							// more than one write plus its barrier were in flight: the live
 							// fence evaluated a write against a later state of the collection
 							key = findLiveLate
 						}
-						fail(key, fmt.Sprintf("step %d, observer live, fence %s: %s", n-len(livePending)+1+pi, strings.Join(tok[2:], " "), what))
+						fail(key, fmt.Sprintf("step %d, observer live #%d of %d on this key, fence %s: %s", n-len(lv.pending)+1+pi, li, len(extras)+1, strings.Join(lv.tok[2:], " "), what))
 					}
 				}
-				livePending = nil
+				lv.pending = nil
 			}
 		}
 	}
@@ -1575,7 +1651,7 @@ func runRoam(t failer, c *ev.Collector, cs RoamCase) (info roamInfo) {
 func TestC20_Roam(t *testing.T) {
 	c := ev.New("C20", "roam", "exploration")
 	t.Cleanup(c.Flush)
-	c.Rule("per case one fence NEARBY fleet [MATCH g] FENCE [NODWELL] ROAM key2 pattern meters (key2 = fleet or another collection; pattern *, prefix glob, class glob or exact id; radius 200 m..50 km log-uniform, in 22% of the cases 0.05 m..200 m log-uniform with coordinates to 12 decimals and 60% of the placements due east/west/north/south; anywhere |lat|<=70) installed as channel + webhook (+ live connection with a barrier probe in part of the cases); 4..N steps, each SET moves/creates one point object of either collection to a position constructed from an existing object: distance d/r in {0.05,0.3,0.6,0.9,0.999,1.001,1.1,1.2,1.3,1.396,1.45,2.5} (jittered 4e-4) at bearing k*45 deg +-3 (45/135/225/315 with 1<d/r<1.41 = inside the search rectangle but outside the circle), occasionally DEL, and ~20% re-SETs of a fleet object at its exact current coordinates (same text, trailing zeros or exponent spelling; optionally with FIELD or EX), half of them right after a roam-collection object was moved into/out of its radius; in 60% of the cases 2-5 objects are SET before the fence is created (collections exist at creation time); ~9% of the steps remove a whole collection (fleet or the roam collection) by DROP, PDEL * or DEL down to the last object (rarely followed by a single SET EX 0.05 that expires) and re-populate it; 9% of the steps store an extended object (BOUNDS rectangle, Polygon triangle or diagonal LineString; half height 0.001..12 r, aspect 0.2/1/5; ids matching and not matching the pattern) whose box CENTRE sits at a constructed d/r - distances are measured to the centre of an object's bounding box; in non-live cases 6% of the steps re-define the roaming channel and webhook under their names (identical, other radius with all pair margins re-checked, other pattern, NODWELL toggled), the model switching at the acknowledgement; 9% of the cases with pattern * or t* are crowd cases: 1,2,3,7,8,9,10,12,16,17,20,24,32,33,48,64 or 70 neighbours are placed uniformly in a disc of 0.7..1.7 r in the roam collection before the fence exists, then fleet objects hop around inside the disc (many neighbours dwell, enter and leave in one step) and crowd members move; every position keeps |d/r-1|>=1e-4 to every other object. Oracle: own haversine over the model's positions: nearby = other pattern-matching objects of key2 with d(new)<=r (minus, under NODWELL, those with d(old)<=r), faraway = d(old)<=r and d(new)>r, one message per entry, nothing else, meters = floor(d*1000)/1000 within 1e-3+1e-9 d; compared per step (a PUBLISH sentinel after every write delimits the channel stream). Non-trivial: a step whose new position has >=1 pattern-matching neighbour in the corner region or that yields >=2 entries, or a re-SET in place that yields >=1 entry, or a step with >=1 entry after a re-definition or while extended objects are stored, or a step with >=1 entry after the roam collection was removed and re-created under a fence that was created on an existing collection; distinct by (pattern, same/other key, NODWELL, radius, construction, counts).")
+	c.Rule("per case one fence NEARBY fleet [MATCH g] FENCE [NODWELL] ROAM key2 pattern meters (key2 = fleet or another collection; pattern *, prefix glob, class glob or exact id; radius 200 m..50 km log-uniform, in 22% of the cases 0.05 m..200 m log-uniform with coordinates to 12 decimals and 60% of the placements due east/west/north/south; anywhere |lat|<=70) installed as channel + webhook (+ live connection with a barrier probe in 40% of the cases; 45% of the live cases with pattern * or t* open 1-3 further live fences with another pattern / radius x0.6..1.6 / NODWELL on the same key, each judged against its own reference, 60% of those with a crowd of 30-70 neighbours); 4..N steps, each SET moves/creates one point object of either collection to a position constructed from an existing object: distance d/r in {0.05,0.3,0.6,0.9,0.999,1.001,1.1,1.2,1.3,1.396,1.45,2.5} (jittered 4e-4) at bearing k*45 deg +-3 (45/135/225/315 with 1<d/r<1.41 = inside the search rectangle but outside the circle), occasionally DEL, and ~20% re-SETs of a fleet object at its exact current coordinates (same text, trailing zeros or exponent spelling; optionally with FIELD or EX), half of them right after a roam-collection object was moved into/out of its radius; in 60% of the cases 2-5 objects are SET before the fence is created (collections exist at creation time); ~9% of the steps remove a whole collection (fleet or the roam collection) by DROP, PDEL * or DEL down to the last object (rarely followed by a single SET EX 0.05 that expires) and re-populate it; 9% of the steps store an extended object (BOUNDS rectangle, Polygon triangle or diagonal LineString; half height 0.001..12 r, aspect 0.2/1/5; ids matching and not matching the pattern) whose box CENTRE sits at a constructed d/r - distances are measured to the centre of an object's bounding box; in non-live cases 6% of the steps re-define the roaming channel and webhook under their names (identical, other radius with all pair margins re-checked, other pattern, NODWELL toggled), the model switching at the acknowledgement; 9% of the cases with pattern * or t* are crowd cases: 1,2,3,7,8,9,10,12,16,17,20,24,32,33,48,64 or 70 neighbours are placed uniformly in a disc of 0.7..1.7 r in the roam collection before the fence exists, then fleet objects hop around inside the disc (many neighbours dwell, enter and leave in one step) and crowd members move; every position keeps |d/r-1|>=1e-4 to every other object. Oracle: own haversine over the model's positions: nearby = other pattern-matching objects of key2 with d(new)<=r (minus, under NODWELL, those with d(old)<=r), faraway = d(old)<=r and d(new)>r, one message per entry, nothing else, meters = floor(d*1000)/1000 within 1e-3+1e-9 d; compared per step (a PUBLISH sentinel after every write delimits the channel stream). Non-trivial: a step whose new position has >=1 pattern-matching neighbour in the corner region or that yields >=2 entries, or a re-SET in place that yields >=1 entry, or a step with >=1 entry after a re-definition or while extended objects are stored, or a step with >=1 entry after the roam collection was removed and re-created under a fence that was created on an existing collection; distinct by (pattern, same/other key, NODWELL, radius, construction, counts).")
 	c.Assume("message order within a step (nearby before faraway, by distance) is not part of the property: labelled, not judged; FSET/EXPIRE on a roam fence are out of scope")
 	maxSteps := ev.Pick(16, 24)
 	ev.Rapid("roam", ev.Pick(2500, 12000))
@@ -1757,6 +1833,54 @@ func runRegress(t *testing.T, c *ev.Collector, cs RoamCase, id string) (held boo
 	c.Violation(id, rf.msg, cs)
 	t.Errorf("probe %s: %s", id, rf.msg)
 	return false
+}
+
+// TestC20_Crowd: more neighbours than any default item limit of the
+// implementation (100): a mover drives into a crowd of 130 pattern-matching
+// neighbours (all of them nearby), dwells, and drives away (all of them
+// faraway).
+func TestC20_Crowd(t *testing.T) {
+	if ev.Shard() != 0 {
+		t.Skip("deterministic cases run on shard 0")
+	}
+	c := ev.New("C20", "crowd", "exploration")
+	t.Cleanup(c.Flush)
+	c.Rule("deterministic: 130 neighbours on a golden-angle spiral within 0.45 r of a centre are stored in the roam collection before the fence exists; a fleet object is SET at the centre (130 nearby), 5 r away (130 faraway), 0.4 r north of the centre (130 nearby), again there (130 nearby, none under NODWELL), away (130 faraway); same / other roam collection x NODWELL on/off, channel + webhook, one case also with a live connection. Every entry and its metres are checked as in the roam sub-check. Non-trivial: every case.")
+	const r, lat0, lon0, n = 2000.0, 48.1, 11.5, 130
+	for _, same := range []bool{false, true} {
+		for _, nodwell := range []bool{false, true} {
+			cs := RoamCase{SameKey: same, Pattern: "t*", Radius: r, NoDwell: nodwell, Live: same && !nodwell}
+			col := 1
+			if same {
+				col = 0
+			}
+			for i := 0; i < n; i++ {
+				la, lo := destination(lat0, lon0, 0.45*r*math.Sqrt((float64(i)+0.5)/n), math.Mod(float64(i)*137.508, 360))
+				cs.Steps = append(cs.Steps, RStep{Op: "set", Col: col, ID: fmt.Sprintf("t%d", 100+i), Lat: round8(la), Lon: round8(lo), Note: "crowd"})
+			}
+			cs.Pre = n
+			barrier := []RStep{{Op: "set", Col: 0, ID: probeID, Lat: -40, Lon: -100, Note: "barrier probe"},
+				{Op: "del", Col: 0, ID: probeID, Sync: true, Note: "barrier"}}
+			mv := func(d, brg float64, note string) {
+				la, lo := destination(lat0, lon0, d, brg)
+				cs.Steps = append(cs.Steps, RStep{Op: "set", Col: 0, ID: "u1", Lat: round8(la), Lon: round8(lo), Note: note})
+				cs.Steps = append(cs.Steps, barrier...)
+			}
+			mv(0, 0, "into the crowd")
+			mv(5*r, 90, "away")
+			mv(0.4*r, 0, "into the crowd, off centre")
+			cs.Steps = append(cs.Steps, RStep{Op: "set", Col: 0, ID: "u1", Lat: cs.Steps[len(cs.Steps)-3].Lat, Lon: cs.Steps[len(cs.Steps)-3].Lon, Reset: true, Note: "re-set in place"})
+			cs.Steps = append(cs.Steps, barrier...)
+			mv(6*r, 270, "away")
+			c.Case()
+			info := runRoam(t, c, cs)
+			for l, k := range info.labels {
+				c.LabelN(l, k)
+			}
+			c.LabelN("expected-entries", info.entries)
+			c.NonTrivial(fmt.Sprintf("crowd|%v|%v", same, nodwell))
+		}
+	}
 }
 
 func TestReplay(t *testing.T) {
